@@ -32,6 +32,12 @@ class Inconclusive(lib.ToolError):
     pass
 
 
+def scratch_root():
+    """all scenario / sandbox directories of this run live below one directory in /dev/shm (removed at the end)"""
+    base = "/dev/shm" if os.path.isdir("/dev/shm") else "/tmp"
+    return os.path.join(base, f"c06.{os.getpid()}")
+
+
 # --------------------------------------------------------------------------- strace log -> FS events
 HEXRUN = re.compile(r'((?:\\x[0-9a-f]{2})+)')
 SB_RE = re.compile(r'/c06-h\d+/([^/]+)/sb(?:/(.*))?$')
@@ -345,7 +351,7 @@ def known_findings(ctx):
 
 
 # --------------------------------------------------------------------------- stage 1: models + cases
-MODEL_ROUTINES = [("index", False), ("res", False), ("disk", False), ("lru_fixed", False),
+MODEL_ROUTINES = [("index", False), ("res", False), ("disk", False), ("lru_fixed", False), ("journal_fixed", False),
                   ("lru", True), ("lru_inplace", True), ("journal", True)]   # (routine, refutation expected)
 FS_CONSTS = {"FineLimit": 4096, "SampleSeed": 1, "SampleN": 8}
 
@@ -430,7 +436,8 @@ def run_histories(ctx, cases, ctxdir, tag="h"):
         cmd = ["strace", "-f", "-y", "-xx", "-s", "4000000", "-e", "trace=" + TRACED, "-o", lp,
                lib.bin_path("drv_crash"), "history", "--cases", cp, "--ctx", ctxdir]
         try:
-            r = subprocess.run(cmd, stdout=subprocess.PIPE, stderr=subprocess.PIPE, text=True, timeout=1500)
+            r = subprocess.run(cmd, stdout=subprocess.PIPE, stderr=subprocess.PIPE, text=True, timeout=1500,
+                               env=dict(os.environ, C06_SCRATCH=scratch_root()))
         except subprocess.TimeoutExpired:
             raise lib.ToolError("drv_crash history timed out")
         if r.returncode != 0:
@@ -511,7 +518,7 @@ def gen_scenarios(ctx, cases, logs, strict, fs_consts, tag):
 # --------------------------------------------------------------------------- stage 4+5: recover, judge
 def run_recover(ctx, scn_path, ctxdir, trace):
     d = lib.run_sharded(ctx, "drv_crash", scn_path, trace, extra_args=["--ctx", ctxdir], shards=lib.NCPU,
-                        prog_flag="--scenarios", out_flag="--out")
+                        prog_flag="--scenarios", out_flag="--out", env={"C06_SCRATCH": scratch_root()})
     return d
 
 
@@ -570,7 +577,8 @@ def observed_steps(clog):
 def compare_shapes(ctx, shapes, cases, logs):
     model_units = {}
     for routine, per_save in shapes.items():
-        drv = "lru" if routine.startswith("lru") else routine     # lru_fixed: the shape after fixes/F06a.patch
+        # lru_fixed / journal_fixed: the shapes after fixes/F06a.patch / fixes/F06b.patch
+        drv = "lru" if routine.startswith("lru") else "journal" if routine.startswith("journal") else routine
         for variants in per_save.values():
             for steps in variants:
                 model_units.setdefault(drv, set()).update(_units(steps))
@@ -680,8 +688,14 @@ def replay(ctx, kd):
     lines = lib.read_lines(trace)
     print(lines[0])
     for ln in v["violations"][:10]:
-        print(lines[ln - 1])
+        print("VIOLATING " + lines[ln - 1])
+    for ln, fid in v["deviations"][:10]:
+        print(f"DEVIATION {fid} " + lines[ln - 1])
     print(json.dumps(v))
+    for fid in ("F06a", "F06b"):
+        if v.get("dev_" + fid, 0):
+            f = next((x for x in ctx.known.get("findings", []) if x["id"] == fid), None)
+            print(f"KNOWN-FINDING: property={PROP} {fid}: {f['what'] if f else fid} (observed {v['dev_' + fid]}x)")
     if obj.get("scenario", {}).get("mode") == "dirops_prefix":
         return 0
     return 1 if v["violations"] else 0
@@ -765,6 +779,14 @@ def scenario_stats(scn_path, cases):
 
 
 def run(ctx):
+    os.makedirs(scratch_root(), exist_ok=True)
+    try:
+        return run_(ctx)
+    finally:
+        shutil.rmtree(scratch_root(), ignore_errors=True)
+
+
+def run_(ctx):
     kd = known_findings(ctx)
     ctx.stage("build", wall_s=round(lib.build(["drv_crash"]), 2))
     if ctx.replay:
